@@ -94,6 +94,12 @@ CHECKS = {
          'Small decks (6-11 cards); uniform weighting of valid selections is the library\'s semantics; deals where nobody can make any hand are not judged.',
          'DESIGN.md section 4 C18'),
 
+ 'C16': ('model_checking',
+         'explicit-state exploration of the real State in path mode (search tree not merged: the oracle is the log) with the real PHH writer, TOML dumper/loader and replayer run at every node, plus exhaustive commentary / user-field / single-line-corruption grids',
+         'For the 11 PHH variants x {cash, tournament} x automations {PHH default, all, none} x {no ante, short-stacked ante with trimming on/off, BB ante 3-handed} x chips {int, Decimal} x {known cards, unknown cards with explicit shows}: at every node of the history tree within k deviations (every prefix is a partial history, every leaf a terminal one) from_game_state -> dumps -> loads -> dumps is a fixpoint with equal data fields, the game and state rebuilt by the loader have the parameters of the game played (incl. the ante-trimming flag), every action line is applied exactly once, and the replay\'s normalised action stream (per player cards with facing, board cards, draw / bring-in / fold / check-call / raise-to / show-muck records with players, amounts, cards) equals the played one - exactly with equal final stacks and payoffs for terminal histories, as a prefix followed only by documented completions for partial ones. Commentary strings on every player action and stand-alone; user fields over 8 keys x 18 value shapes and 19 optional fields; every single-line corruption (delete, duplicate, wrong player, oversize amount, unknown verb, surplus board cards) of every terminal history either raises or applies every line.',
+         'Dealing-record chunking is not compared; partial stud histories cut inside a deal raise KeyError from the opener lookup (counted as error report). Two muck-at-showdown defects of C07 are reached through the loader and reported as known findings.',
+         'DESIGN.md section 4 C16'),
+
 }
 
 def main():
